@@ -155,7 +155,10 @@ LongXS == CHOOSE s \in XS : \A t \in XS : Len(t) <= Len(s)
 QRec ==
     LET L == Len(obj.a) M == Len(obj.b) IN
     [kind |-> "q", cap |-> cap, pre |-> obj, full |-> B2I(obj.b = <<>>),
-     P |-> Bnd(L), P1 |-> Idx(L), C1 |-> Bnd(L), P2 |-> {0, M}, C2 |-> {1, NPOS},
+     P |-> Bnd(L), P1 |-> Idx(L), C1 |-> Bnd(L),
+     \* second substring of the 5-argument compare: every position of the argument and every boundary count, so that
+     \* (pos2, count2) also lies strictly inside an argument that is longer than the string itself
+     P2 |-> Idx(M), C2 |-> Bnd(M), C2X |-> Bnd(Len(LongXS)),
      XS |-> XS, LX |-> LongXS, CH |-> {97, 0}]
 
 \* number of query calls the driver has to make for a bundle
@@ -167,7 +170,7 @@ QCalls(q) ==
       + (IF q.full = 1
          THEN 6 * (nx * (p + 1) + p * pn + nc * (p + 1)) - nx             \* p, pn, ch (find_first_not_of(s) has no default pos)
             + nx * (p + 1)                                                 \* find_first_of(sv)
-            + nx * (2 + 2 * s1) + s1 * 2 * 3 + s1 * (Len(q.LX) + 1)       \* compare p, sv, 3p, 3sv; 5sv on LX; 4pn on LX
+            + nx * (2 + 2 * s1) + s1 * (Len(q.LX) + 1) * (Cardinality(q.C2X) + 1) + s1 * (Len(q.LX) + 1)  \* compare p, sv, 3p, 3sv; 5sv on LX; 4pn on LX
             + 3 * (2 * nx + nc)                                            \* starts_with / ends_with / contains: sv, p, ch
             + 2 * nx                                                       \* relops p, rp
          ELSE 0)
